@@ -286,6 +286,49 @@ def rule_args_info_fresh(ctx, rep, rule_id="R-ARGS-INFO-FRESH"):
         raise AnalysisError(f"only {n} replace_args call sites found")
 
 
+RESOLUTION_MODULES = ("codemodder.codemods.utils_mixin", "codemodder.codemods.base_visitor")
+
+
+def rule_resolution_not_memoised(ctx, rep, rule_id="R-RESOLUTION-NOT-MEMOISED"):
+    rep.rule(
+        rule_id,
+        "in visitor/transformer classes, the result of a scope- or position-dependent resolution helper (the mixin methods of "
+        "utils_mixin / base_visitor taking a CST node: find_base_name, get_aliased_prefix_name, find_assignments, node_position, ...) "
+        "is never stored in a `self.<dict>[key]` memo whose key is not that node: the same text resolves differently in another "
+        "scope (a local `import x as y`, a shadowing assignment), so a text-keyed memo makes the codemod edit, or skip, the wrong call",
+        min_instances=1,
+    )
+    n_classes = 0
+    for c in ctx.prog.classes.values():
+        mro = ctx.prog.mro(c.qname)
+        if not any(m.startswith(RESOLUTION_MODULES) for m in mro):
+            continue
+        n_classes += 1
+        for m in c.methods.values():
+            r = ctx.resolver(m)
+            for n in walk_no_nested(m.node):
+                if not (isinstance(n, ast.Assign) and len(n.targets) == 1 and isinstance(n.targets[0], ast.Subscript)):
+                    continue
+                tgt = n.targets[0]
+                if not (isinstance(tgt.value, ast.Attribute) and isinstance(tgt.value.value, ast.Name) and tgt.value.value.id == "self"):
+                    continue
+                v = n.value
+                if not (isinstance(v, ast.Call) and isinstance(v.func, ast.Attribute) and isinstance(v.func.value, ast.Name) and v.func.value.id == "self" and v.args):
+                    continue
+                targets = [t for t in r.resolve_call(v) if isinstance(t, FuncInfo)]
+                if not targets or not all(t.module.name in RESOLUTION_MODULES for t in targets):
+                    continue
+                key_names = {unparse(x) for x in ast.walk(tgt.slice) if isinstance(x, (ast.Name, ast.Attribute))}
+                arg_texts = {unparse(a) for a in v.args}
+                keyed_by_node = bool(arg_texts & key_names) and not any(isinstance(x, ast.Call) for x in ast.walk(tgt.slice))
+                rep.check(rule_id, c.qname, m.loc(n), keyed_by_node, f"{m.name}:{unparse(tgt.value)}",
+                          f"`{unparse(n)[:80]}` memoises {targets[0].name}() under the key `{unparse(tgt.slice)[:40]}`, which is not the resolved node: "
+                          "another occurrence of the same text in a different scope gets the first occurrence's answer")
+    if n_classes < 20:
+        raise AnalysisError(f"only {n_classes} classes using the resolution mixins found")
+    rep.instance(rule_id, "codemodder.codemods.utils_mixin", "src/codemodder/codemods/utils_mixin.py:1", True, detail=f"{n_classes} classes scanned")
+
+
 def check(ctx, rep):
     rep.explanation = (
         "Sibling agreement between documentation and code: the tokens each hardening transformer introduces by name are recovered "
@@ -296,4 +339,5 @@ def check(ctx, rep):
     rule_args(ctx, rep)
     rule_helper_contract(ctx, rep)
     rule_args_info_fresh(ctx, rep)
+    rule_resolution_not_memoised(ctx, rep)
     rep.not_covered += ["preservation of every token of arbitrary call shapes through libcst", "argument order for star-args"]
